@@ -1868,7 +1868,10 @@ def judge (prop : String) (lines : List String) : List String :=
   | "C12" => judgeC12 ops
   | "C03" => judgeC03 ops
   | "C09" => judgeC09 ops
-  | "C10" => judgeC10 ops ++ (judgeC02 ops).map fun (l : String) => l.replace "C02-" "C10-fetch-"
+  -- fetch responses are part of "the content the broker sent": client level as in C02, consumer level as in C01
+  -- (everything the brokers' replies carried is handed out, whatever the shape of another broker's reply)
+  | "C10" => judgeC10 ops ++ ((judgeC02 ops).map fun (l : String) => l.replace "C02-" "C10-fetch-")
+      ++ ((judgeC01 ops).map fun (l : String) => l.replace "C01-" "C10-poll-")
   | "C11" => judgeC11 ops
   | "C14" => judgeC14 ops
   | "C20" => judgeC20 ops
